@@ -776,3 +776,4 @@ def ranges_open(u: Unit):
                             inside = [z3.Int("t_row_stop") <= rows, z3.Int("t_col_stop") <= cols] + ([z3.Int("t_time_stop") <= times] if td == 3 else [])
                             u.oblige(p, f"ranges.open.accept_implies_inside_target{tag}", z3.And(*inside), w, OPEN_REPLAY)
                     u.static(f"ranges.open.explored{tag}", len(ps) >= 1, fi.qualname, f"{len(ps)} paths, {n_acc} accepting")
+unit("C11", "resimulation.layout")(_CR.layout_unit)      # the returned simulated data can be read from the tree the re-simulation produces
